@@ -98,7 +98,7 @@ func H11a() {
 	for i, e := range s.ends {
 		if e <= k {
 			switch s.kinds[i] {
-			case vKindRecord, vKindUnknownFld, vKindDevField, vKindCompressed:
+			case vKindRecord, vKindUnknownFld, vKindDevField, vKindDevField2, vKindCompressed:
 				wantRec++
 			case vKindLap:
 				wantLap++
